@@ -11,6 +11,8 @@ carrier of the `float64` values: any linear order (a NaN is not a member of one:
 The rule list handed to `check` is the flattening of a Go map, i.e. determined only up to permutation:
 the theorems quantify over every permutation.
 -/
+set_option linter.unusedSectionVars false
+
 namespace Sentinel.C07
 open Sentinel.LA Sentinel.System
 
@@ -126,9 +128,10 @@ theorem inputs_eq_reference {R : Type} (t0 : Nat) (h : List (Nat × Bucket)) (mo
   modelView_eq_refView t0 h mono now hnow h0 hpos conc load cpu
 
 /-! ## the whole machine: for every op sequence the code decides what the property demands -/
-section machine
-variable {R : Type} [LinearOrder R] (A : Arith R)
+section invariant
+variable {R : Type} [LT R] [LE R] [∀ a b : R, Decidable (a < b)] [∀ a b : R, Decidable (a ≤ b)] (A : Arith R)
 
+omit [LT R] [LE R] [∀ a b : R, Decidable (a < b)] [∀ a b : R, Decidable (a ≤ b)] in
 theorem init_good (load cpu : R) : Good ({ load := load, cpu := cpu } : St R) :=
   ⟨⟨fun h => by simp at h, by simp [Mono], by simp, le_refl _, fun h => by simp at h, fun _ => rfl⟩, by simp [cnt]⟩
 
@@ -177,6 +180,11 @@ theorem step_good (sp : Bool) (s : St R) (g : Good s) (op : Op R) : Good (step A
         have hid : e.id = id := by simpa using List.find?_some hf
         subst hid
         exact onExit_good s e hs g hf
+
+end invariant
+
+section machine
+variable {R : Type} [LinearOrder R] (A : Arith R)
 
 /-- in a reachable state, one op of the code (`spec = false`: `check` over the leap-array view and the
     atomic gauge) and one op of the Spec (`spec = true`: `specBlocked`, i.e. `∃ violated`, over the inputs
